@@ -3,6 +3,7 @@ module verifharness
 go 1.25.0
 
 require (
+	github.com/nspcc-dev/dbft v0.4.0
 	github.com/nspcc-dev/neo-go v0.121.0
 	github.com/stretchr/testify v1.11.1
 	go.uber.org/zap v1.27.1
